@@ -175,7 +175,16 @@ def main(argv=None):
     for r in results:
         for c in r.get("concretised", []):
             concretised.append((r.get("name"), c))
-    for name, c in cands[:40]:
+    # one candidate per job first (so that no job's finding is starved by another job's many candidates)
+    firsts, rest, seen_jobs = [], [], set()
+    for name, c in cands:
+        if name not in seen_jobs:
+            seen_jobs.add(name)
+            firsts.append((name, c))
+        else:
+            rest.append((name, c))
+    cands = firsts + rest
+    for name, c in cands[:max(60, len(firsts))]:
         ok, detail, path = replay_case(prop, c["case"], keep=True)
         if ok is None:
             harness_errors.append((name, detail))
